@@ -616,6 +616,11 @@ pub fn run_scan(args: &Args, report: &mut Report) {
             ctl = ctl.target("ttl.before_enqueue", 300, 300).target("ttl.before_update", 200, 200);
         }
         let ctl = Arc::new(ctl);
+        if big {
+            // long scans: hold the scanner on the entry at which it re-pins its epoch guard, so that churn threads
+            // get to delete / re-create exactly that key (and its neighbours) meanwhile
+            ctl.repin_delay_us.store(500, Ordering::Relaxed);
+        }
         hub().set_sched(Some(ctl.clone()));
         let stop = Arc::new(AtomicBool::new(false));
         let stale_seen = Arc::new(AtomicU64::new(0));
